@@ -155,7 +155,7 @@ func GenCActions(n int, minLen, maxLen int) *rapid.Generator[[]CAction] {
 		return e
 	})
 	one := rapid.Custom(func(t *rapid.T) CAction {
-		a := CAction{Kind: rapid.SampledFrom([]string{"new", "new", "edit", "edit", "edit", "edit", "edit", "push", "push", "pull", "pull", "pull", "remove", "cachesize", "reopen", "rebuild", "gc", "newident", "mutident"}).Draw(t, "kind"),
+		a := CAction{Kind: rapid.SampledFrom([]string{"new", "new", "edit", "edit", "edit", "edit", "edit", "push", "push", "pull", "pull", "pull", "remove", "cachesize", "reopen", "rebuild", "dropindex", "gc", "newident", "mutident"}).Draw(t, "kind"),
 			R: rapid.IntRange(0, n-1).Draw(t, "r"), Time: rapid.Int64Range(1_000_000, 2_000_000_000).Draw(t, "time")}
 		switch a.Kind {
 		case "new":
@@ -368,6 +368,25 @@ func (w *CWorld) Exec(a CAction) (res CExecResult, err error) {
 		r.Repo, r.Cache = repo, nrc
 		res.Reopened = true
 		res.Rebuilt = true
+	case "dropindex":
+		// the search index directory is lost while the cache files survive (a partial restore, a cleaning tool, an
+		// interrupted rebuild): the next open has to notice
+		if err := r.Cache.Close(); err != nil {
+			return res, &ExecError{"close/" + Normalize(err.Error()), err.Error()}
+		}
+		if err := os.RemoveAll(filepath.Join(r.Path, ".git", "git-bug", "indexes")); err != nil {
+			return res, err
+		}
+		repo, err := repository.OpenGoGitRepo(r.Path, "git-bug", nil)
+		if err != nil {
+			return res, err
+		}
+		nrc, err := cache.NewRepoCacheNoEvents(repo)
+		if err != nil {
+			return res, &ExecError{"open-without-index-directory/" + Normalize(err.Error()), err.Error()}
+		}
+		r.Repo, r.Cache = repo, nrc
+		res.Reopened = true
 	case "newident":
 		if _, err := rc.Identities().NewRaw(a.Title, "x@example.org", "", "", nil, map[string]string{"origin-id": fmt.Sprintf("extra-%d", w.seq)}); err != nil {
 			return res, &ExecError{"new-identity/" + Normalize(err.Error()), err.Error()}
